@@ -83,6 +83,16 @@ def run(res, b, tier, seed):
         gc = c09.gen_case(rng, i)
         cases.append(pipeline.Case("m%d" % i, gc.files, meta=dict(multipath=bool(gc.meta.get("multipath")),
                                                                src="\n".join("// file %s\n%s" % (k, v.decode("utf-8", "replace")) for k, v in gc.files.items()))))
+    # std/strings imported by two files of one program, every library function reachable from both (round 7: C16-9 - a private helper
+    # added to the library is emitted once per importing file; private functions of USER files reached twice are the known finding, the
+    # library has none today)
+    calls = ['strings.Index("abab", "b")', 'strings.Contains("ab", "b")', 'strings.Join([]string{"a", "b"}, "-")', 'strings.HasPrefix("ab", "a")',
+             'strings.HasSuffix("ab", "b")', 'strings.Count("aab", "a")', 'len(strings.Split("a,b", ","))', 'strings.Repeat("ab", 2)',
+             'strings.Replace("aab", "a", "x", 1)', 'strings.ReplaceAll("aab", "a", "x")', 'strings.TrimPrefix("ab", "a")', 'strings.TrimSuffix("ab", "b")',
+             'strings.TrimLeft("aab", "a")', 'strings.TrimRight("abb", "b")', 'strings.Trim("aba", "a")', 'strings.TrimSpace(" a ")']
+    util = 'import "strings"\nfunc All() {\n' + "".join("\tprint(%s)\n" % c_ for c_ in calls) + '\tu1, u2, u3 := strings.Cut("a=b", "=")\n\tprint(u1, u2, u3)\n}\n'
+    mainf = 'import (\n\t"strings"\n\tu "util.tsh"\n)\nu.All()\n' + "".join("print(%s)\n" % c_ for c_ in calls) + 'm1, m2 := strings.CutPrefix("ab", "a")\nprint(m1, m2)\n'
+    cases.append(pipeline.Case("std-twice", {"main.tsh": mainf.encode(), "util.tsh": util.encode()}, meta=dict(multipath=False, src="// file main.tsh\n" + mainf + "// file util.tsh\n" + util)))
     # every small graph with a file reached twice x importing files with / without top-level code (deterministic; see c09.directed_graphs)
     for gc in c09.directed_graphs(random.Random(16)):
         cases.append(pipeline.Case("dg" + gc.id, gc.files, meta=dict(multipath=bool(gc.meta.get("multipath")),
